@@ -23,6 +23,16 @@ STORING = {"append", "add", "extend", "insert", "set", "setdefault", "update", "
 LAZY = {"map", "filter", "zip", "enumerate", "chain", "starmap", "takewhile", "dropwhile", "partial", "islice", "iter"}
 
 _ANCHORS: Optional[Dict[str, Set[str]]] = None
+# modules a property's anchored code takes its inputs from (the values it compares against / the functions it is handed): process
+# memory there changes what the anchored code sees
+EXTRA_SCOPE = {
+    "C12": (PKG + "/config/hive_config.py", PKG + "/config/dispatcher_config.py"),
+    "C10": (PKG + "/config/hive_config.py",),
+    "C11": (PKG + "/config/hive_config.py", PKG + "/config/sim.py"),
+    "C15": (PKG + "/config/hive_config.py", PKG + "/config/sim.py", PKG + "/reporting/reporter.py"),
+    "C20": (PKG + "/model/vehicle/schedules/__init__.py", PKG + "/model/vehicle/schedules/schedule.py"),
+    "C19": (PKG + "/reporting/reporter.py",),
+}
 
 
 def anchors(prop: str) -> Set[str]:
@@ -224,3 +234,221 @@ def after_run(ctx) -> None:
         late_binding(ctx, files)
     except Exception as e:  # never let a hygiene rule turn into a verdict by crashing
         ctx.soft_fail(f"hygiene: internal {type(e).__name__}: {e}")
+    # process-lifetime memory: on the anchor files; package-wide for the two properties that quantify over whole processes / repeated steps
+    pm_files = set(files) | {f for f in EXTRA_SCOPE.get(ctx.prop, ()) if f in ctx.repo.modules}
+    if ctx.prop in ("C01", "C16"):
+        pm_files = {rel for rel in ctx.repo.modules if rel.startswith(PKG) and not rel.startswith((PKG + "/resources", PKG + "/app"))}
+    try:
+        process_memory(ctx, pm_files, "HO" if ctx.prop == "C01" else ("IM" if ctx.prop == "C16" else "PY"))
+    except Exception as e:
+        ctx.soft_fail(f"hygiene: internal {type(e).__name__}: {e}")
+
+
+# ------------------------------------------------------------------------------------------ process-lifetime memory
+CACHE_DECORATORS = ("lru_cache", "cache", "cached_property", "functools.lru_cache", "functools.cache", "functools.cached_property", "ft.lru_cache", "ft.cache", "memoize", "memoized")
+MUTATORS = {"append", "extend", "insert", "pop", "remove", "clear", "update", "add", "discard", "setdefault", "popitem", "appendleft", "popleft", "__setitem__", "sort", "reverse"}
+_IMMUTABLE_CALLS = {"tuple", "frozenset", "str", "int", "float", "bool", "bytes", "Map", "immutables.Map"}
+
+
+def _mutable_display(v: Optional[ast.AST]) -> bool:
+    if isinstance(v, (ast.Dict, ast.List, ast.Set, ast.DictComp, ast.ListComp, ast.SetComp)):
+        return True
+    if isinstance(v, ast.Call):
+        d = ast.unparse(v.func)
+        return d.split(".")[-1] in ("dict", "list", "set", "defaultdict", "OrderedDict", "Counter", "deque", "WeakValueDictionary", "WeakKeyDictionary")
+    return False
+
+
+def process_memory(ctx, files: Set[str], rule_prefix: str = "PY") -> int:
+    """Memory that outlives a call and is not part of the simulation state — so that what a step / a loader returns depends on what the
+    process did before (another scenario, an earlier step of the same state, a roll-back):
+      * a module- or class-level mutable container that some function of the module writes to (a memo, a registry filled at run time);
+      * a cache decorator (lru_cache, cache, cached_property) on a function whose result is a mutable object that a caller then changes
+        (through the result itself or through a shallow copy of it), or on a function of the step path (a memo keyed by less than
+        everything the result depends on cannot be told from one that is);
+      * a closure that keeps mutable state in its enclosing function's variables (nonlocal rebinding, item / attribute stores, mutating
+        calls on a captured container) and escapes that function (returned or stored): a stateful function where a pure one is expected."""
+    n = 0
+    for rel in sorted(files):
+        m = ctx.repo.modules.get(rel)
+        if m is None:
+            continue
+        tree = m.tree
+        # ---- module / class level containers written by functions
+        level = {}
+        for holder in [tree] + [c for c in ast.walk(tree) if isinstance(c, ast.ClassDef)]:
+            for st_ in holder.body:
+                tg = st_.targets if isinstance(st_, ast.Assign) else ([st_.target] if isinstance(st_, ast.AnnAssign) and st_.value is not None else [])
+                for t_ in tg:
+                    if isinstance(t_, ast.Name) and _mutable_display(st_.value):
+                        level[t_.id] = (st_, holder)
+        for fn in m.funcs.values():
+            if fn.outer is not None:
+                continue
+            local_binds = {x.id for x in ast.walk(fn.node) if isinstance(x, ast.Name) and isinstance(x.ctx, ast.Store)} | set(fn.params)
+            for node in ast.walk(fn.node):
+                tgt = None
+                if isinstance(node, ast.Subscript) and isinstance(node.ctx, (ast.Store, ast.Del)):
+                    tgt = node.value
+                elif isinstance(node, ast.Call) and isinstance(node.func, ast.Attribute) and node.func.attr in MUTATORS:
+                    tgt = node.func.value
+                elif isinstance(node, ast.AugAssign) and isinstance(node.target, (ast.Subscript, ast.Attribute)):
+                    tgt = node.target.value
+                if tgt is None:
+                    continue
+                base_ = tgt
+                while isinstance(base_, (ast.Subscript,)):
+                    base_ = base_.value
+                name = None
+                if isinstance(base_, ast.Name) and base_.id in level and base_.id not in local_binds:
+                    name = base_.id
+                elif isinstance(base_, ast.Attribute) and isinstance(base_.value, ast.Name) and base_.value.id in ("self", "cls") and base_.attr in level \
+                        and isinstance(level[base_.attr][1], ast.ClassDef) and fn.cls is not None and fn.cls.name == level[base_.attr][1].name:
+                    # class-level container reached through self / cls (one object for every instance)
+                    assigned_on_self = any(isinstance(x, ast.Attribute) and isinstance(x.ctx, ast.Store) and x.attr == base_.attr for f2 in m.funcs.values() for x in ast.walk(f2.node))
+                    if not assigned_on_self:
+                        name = base_.attr
+                elif isinstance(base_, ast.Attribute) and isinstance(base_.value, ast.Name) and base_.value.id[:1].isupper() and base_.attr in level:
+                    name = base_.attr
+                if name is None:
+                    continue
+                n += 1
+                ctx.violation("H2", f"{rule_prefix}.process-memo", f"{fn.qualname} writes to the {'class' if isinstance(level[name][1], ast.ClassDef) else 'module'}-level container {name}", fn, node,
+                              why=f"`{name}` lives as long as the process and is written at run time: what this code returns next depends on what ran before in the same process "
+                                  f"(another scenario, an earlier step of a kept state), not only on its arguments",
+                              construct=f"process-memo:{name}:{fn.qualname}")
+        # ---- cache decorators
+        for fn in m.funcs.values():
+            decs = [ast.unparse(d.func if isinstance(d, ast.Call) else d) for d in fn.node.decorator_list]
+            if not any(d in CACHE_DECORATORS or d.split(".")[-1] in ("lru_cache", "cache", "cached_property") for d in decs):
+                continue
+            n += 1
+            rets = [r.value for r in ast.walk(fn.node) if isinstance(r, ast.Return) and r.value is not None]
+            immutable = bool(rets) and all(isinstance(r, (ast.Constant, ast.Tuple, ast.JoinedStr)) or (isinstance(r, ast.Call) and ast.unparse(r.func) in _IMMUTABLE_CALLS) for r in rets)
+            mutated_by = _callers_mutating_result(ctx, fn) if not immutable else None
+            if immutable:
+                ctx.ok("H2", f"{rule_prefix}.process-memo", f"{fn.qualname}: cached, result immutable", fn, fn.node)
+            elif mutated_by:
+                ctx.violation("H2", f"{rule_prefix}.process-memo", f"{fn.qualname} is cached and its (mutable) result is changed by {mutated_by[0]}", fn, fn.node,
+                              why=f"the cached object is shared by every caller for the life of the process; {mutated_by[0]} writes into it ({mutated_by[1]}), so later callers — another "
+                                  f"scenario loaded in the same process — start from what an earlier one left behind",
+                              construct=f"cached-mutable:{fn.qualname}")
+            else:
+                ctx.violation("H2", f"{rule_prefix}.process-memo", f"{fn.qualname} is cached for the life of the process and returns a mutable / unknown object", fn, fn.node,
+                              why="a process-lifetime cache of something that is not provably immutable: whoever changes the result changes it for every later caller; and a result that "
+                                  "depends on anything outside the arguments (files, configuration) is frozen at its first value",
+                              construct=f"cached-unknown:{fn.qualname}")
+        # ---- stateful closures
+        for fn in m.funcs.values():
+            if fn.outer is None:
+                continue
+            outer = fn.outer
+            outer_locals = ({x.id for x in ast.walk(outer.node) if isinstance(x, ast.Name) and isinstance(x.ctx, ast.Store) and _owner_is(x, outer.node)} | set(outer.params))
+            own = {x.id for x in ast.walk(fn.node) if isinstance(x, ast.Name) and isinstance(x.ctx, ast.Store)} | set(fn.params)
+            nonlocals = {nm for x in ast.walk(fn.node) if isinstance(x, ast.Nonlocal) for nm in x.names}
+            own -= nonlocals
+            how = None
+            if nonlocals & outer_locals:
+                how = f"rebinds {sorted(nonlocals & outer_locals)} of {outer.qualname} (nonlocal)"
+            for node in ast.walk(fn.node):
+                tgt = None
+                if isinstance(node, ast.Subscript) and isinstance(node.ctx, (ast.Store, ast.Del)):
+                    tgt = node.value
+                elif isinstance(node, ast.Attribute) and isinstance(node.ctx, ast.Store):
+                    tgt = node.value
+                elif isinstance(node, ast.Call) and isinstance(node.func, ast.Attribute) and node.func.attr in MUTATORS:
+                    tgt = node.func.value
+                elif isinstance(node, ast.AugAssign) and isinstance(node.target, (ast.Subscript, ast.Attribute)):
+                    tgt = node.target.value
+                if tgt is None:
+                    continue
+                while isinstance(tgt, (ast.Subscript, ast.Attribute)):
+                    tgt = tgt.value
+                if isinstance(tgt, ast.Name) and tgt.id in outer_locals and tgt.id not in own and tgt.id not in ("self", "cls"):
+                    # only containers the enclosing function built itself count (a parameter handed in is the caller's business)
+                    bind = [x for x in ast.walk(outer.node) if isinstance(x, (ast.Assign, ast.AnnAssign)) and any(isinstance(t, ast.Name) and t.id == tgt.id for t in (x.targets if isinstance(x, ast.Assign) else [x.target]))]
+                    if bind and all(_mutable_display(getattr(b, "value", None)) or (isinstance(getattr(b, "value", None), ast.Call) and ast.unparse(b.value.func)[:1].isupper()) for b in bind):
+                        how = how or f"keeps state in `{tgt.id}`, a container of {outer.qualname}"
+            if not how:
+                continue
+            # does the closure escape its enclosing function?
+            escapes = False
+            for x in ast.walk(outer.node):
+                if isinstance(x, ast.Name) and x.id == fn.name and isinstance(x.ctx, ast.Load):
+                    p = parent(x)
+                    if isinstance(p, ast.Call) and p.func is x:
+                        continue
+                    escapes = True
+            if not escapes:
+                continue
+            n += 1
+            ctx.violation("H2", f"{rule_prefix}.stateful-closure", f"{fn.qualname} {how} and is handed out by {outer.qualname}", fn, fn.node,
+                          why="the function remembers something between calls that is not in the simulation state: called again for an earlier (or the same) state — a kept state stepped "
+                              "twice, a roll-back, a second run in the same environment — it answers from what it saw before, not from its arguments",
+                          construct=f"stateful-closure:{fn.qualname}")
+    return n
+
+
+def _owner_is(name_node: ast.AST, fn_node: ast.AST) -> bool:
+    p = parent(name_node)
+    while p is not None:
+        if isinstance(p, (ast.FunctionDef, ast.AsyncFunctionDef, ast.Lambda)):
+            return p is fn_node
+        p = parent(p)
+    return False
+
+
+def _callers_mutating_result(ctx, cached_fn):
+    """(caller qualname, what) when some function mutates the cached function's result, directly or through a shallow copy's elements."""
+    name = cached_fn.name
+    for m in ctx.repo.modules.values():
+        if not m.relpath.startswith(PKG):
+            continue
+        for fn in m.funcs.values():
+            if fn is cached_fn or fn.outer is not None:
+                continue
+            deep, shallow = set(), set()
+            changed = True
+            def is_call(e):
+                return isinstance(e, ast.Call) and (getattr(e.func, "id", None) == name or getattr(e.func, "attr", None) == name)
+            def tainted(e):
+                if is_call(e):
+                    return True
+                if isinstance(e, ast.Name):
+                    return e.id in deep
+                if isinstance(e, (ast.Subscript, ast.Attribute)):
+                    return tainted(e.value) or (isinstance(e.value, ast.Name) and e.value.id in shallow) or (isinstance(e, ast.Subscript) and _shallow_expr(e.value))
+                if isinstance(e, ast.Call) and isinstance(e.func, ast.Attribute) and e.func.attr in ("get", "values", "items", "setdefault"):
+                    return tainted(e.func.value) or (isinstance(e.func.value, ast.Name) and e.func.value.id in shallow)
+                return False
+            def _shallow_expr(e):
+                return isinstance(e, ast.Call) and ((isinstance(e.func, ast.Name) and e.func.id in ("dict", "list", "set") and e.args and tainted(e.args[0])) or
+                                                    (isinstance(e.func, ast.Attribute) and e.func.attr == "copy" and tainted(e.func.value)))
+            while changed:
+                changed = False
+                for n_ in ast.walk(fn.node):
+                    if isinstance(n_, (ast.Assign, ast.AnnAssign)) and getattr(n_, "value", None) is not None:
+                        tg = n_.targets if isinstance(n_, ast.Assign) else [n_.target]
+                        for t in tg:
+                            if isinstance(t, ast.Name):
+                                if _shallow_expr(n_.value) and t.id not in shallow:
+                                    shallow.add(t.id); changed = True
+                                elif tainted(n_.value) and not _shallow_expr(n_.value) and t.id not in deep:
+                                    deep.add(t.id); changed = True
+                    elif isinstance(n_, (ast.For, ast.comprehension)) and (tainted(n_.iter)):
+                        for y in ast.walk(n_.target):
+                            if isinstance(y, ast.Name) and y.id not in deep:
+                                deep.add(y.id); changed = True
+            if not deep and not shallow and not any(is_call(x) for x in ast.walk(fn.node)):
+                continue
+            for n_ in ast.walk(fn.node):
+                tgt = None
+                if isinstance(n_, ast.Subscript) and isinstance(n_.ctx, (ast.Store, ast.Del)):
+                    tgt = n_.value
+                elif isinstance(n_, ast.Call) and isinstance(n_.func, ast.Attribute) and n_.func.attr in MUTATORS:
+                    tgt = n_.func.value
+                elif isinstance(n_, ast.AugAssign) and isinstance(n_.target, (ast.Subscript, ast.Attribute)):
+                    tgt = n_.target.value
+                if tgt is not None and tainted(tgt) and not (isinstance(tgt, ast.Name) and tgt.id in shallow):
+                    return (fn.qualname, f"`{ast.unparse(n_)[:60]}`")
+    return None
